@@ -524,6 +524,28 @@ Section IdealAead.
     split; [exact Ht|]. split; [exact Hc|].
     exists ov, piv, kc, kid. repeat split; try assumption. symmetry. exact Hn.
   Qed.
+  (* ... and what the client hands out is the genuine protected content of the response *)
+  Theorem osc_response_accepted_content c tok req_piv n0 a0 c0 o m' pt0 code inner pl :
+    sc_rkey c = K ->
+    (forall n a ct, sent n a ct -> n = n0 /\ a = a0 /\ ct = c0) ->
+    dec K n0 a0 c0 = Some pt0 ->
+    osc_parse_plaintext pt0 = Some (code, inner, pl) ->
+    osc_unprotect_resp_gen dec c tok req_piv o = Some m' ->
+    exists piv,
+      m' = mkMsg (m_type o) code (m_mid o) (m_token o)
+             (osc_merge (osc_kept_outer (m_opts o)) (osc_fix_observe piv inner)) pl.
+  Proof.
+    intros HK Hsent Hdec Hparse Hacc.
+    destruct (osc_response_accept_implies_sent c tok req_piv o m' HK Hacc)
+      as (Ht & [n9 ov] & piv & kc & kid & Hf & Hd & Hs).
+    destruct (Hsent _ _ _ Hs) as (Hn & Ha & Hc).
+    unfold osc_unprotect_resp_gen in Hacc.
+    destruct (negb (osc_bytes_eqb (m_token o) tok)); [discriminate|].
+    rewrite Hf in Hacc. cbn [snd] in Hd. rewrite Hd in Hacc.
+    destruct (negb _); [discriminate|].
+    rewrite HK, Hn, Ha, Hc, Hdec, Hparse in Hacc. inversion Hacc. exists piv. reflexivity.
+  Qed.
+
 End IdealAead.
 
 (* non-vacuity of the Section hypothesis: the ideal AEAD functionality "decrypt only what was
@@ -559,3 +581,11 @@ Example osc_ideal_dec_accepts_genuine :
   | None => False
   end.
 Proof. vm_compute. reflexivity. Qed.
+
+(* an OSCORE-only resource only ever sees verified requests *)
+Theorem osc_only_gate dec s o m' :
+  osc_server_deliver dec s true o = Some m' -> osc_unprotect_req_gen dec s o = Some m'.
+Proof.
+  unfold osc_server_deliver. destruct (osc_find_opt OSC_OPT (m_opts o)); [|discriminate].
+  destruct (osc_is_request (m_code o)); [tauto|discriminate].
+Qed.
